@@ -1,4 +1,4 @@
-from bisect import bisect
+from bisect import bisect, bisect_left
 from decimal import Decimal
 from enum import IntEnum
 from functools import total_ordering
@@ -158,6 +158,7 @@ class TimingEngine:
     timing_data: TimingData
     _tagged_beats: MutableSequence[Tuple[Beat, EventTag]]
     _tagged_times: MutableSequence[Tuple[SongTime, EventTag]]
+    _times: MutableSequence[SongTime]
     _state_machine: TimingStateMachine
 
     def __init__(self, timing_data: TimingData):
@@ -259,6 +260,7 @@ class TimingEngine:
                 cast(List[TimingState], self._state_machine),
             )
         )
+        self._times = [time for (time, _) in self._tagged_times]
 
     def bpm_at(self, beat: Beat) -> Decimal:
         """
@@ -356,10 +358,24 @@ class TimingEngine:
         Keep in mind that this situation is floating-point precise, so
         it's unlikely for the `event_tag` to ever make a difference.
         """
-        tagged_time = (time, event_tag)
+        # Several states can share one time: a warp elapses instantly, and so
+        # does everything inside it up to the next stop or delay. The tags of
+        # such states are not in ascending order (a BPM change, or the end of a
+        # stop, can precede the WARP_END), so the time is looked up on its own:
+        # WARP selects the first state at that time, where the instantaneous
+        # stretch starts, and any other tag selects the last one.
+        if event_tag == EventTag.WARP:
+            prior_state_index = bisect_left(self._times, time)
+            if (
+                prior_state_index == len(self._times)
+                or self._times[prior_state_index] != time
+            ):
+                prior_state_index -= 1
+        else:
+            prior_state_index = bisect(self._times, time) - 1
 
         # Same caveat as `time_at`
-        prior_state_index = max(0, bisect(self._tagged_times, tagged_time) - 1)
+        prior_state_index = max(0, prior_state_index)
         prior_state: TimingState = self._state_machine[prior_state_index]
         prior_state_beat = prior_state.event.beat
 
